@@ -14,19 +14,24 @@
 #include "vw_node.h"
 #define S (V_NODE.Sdo[0])
 CO_OBJ V_OBJ0; uint32_t H_OSZ; CO_ERR H_WRES, H_RRES; uint8_t H_RBYTE; uint32_t G_B, H_FILL; _Bool H_OPEN;
-uint32_t W_N, W_LEN, R_N, R_LEN, A_WIDTH; int W_KIND, R_KIND; uint8_t *W_PTR, *R_PTR, W_PROBE;
+uint32_t W_N, W_LEN, R_N, R_LEN, A_WIDTH, N_RESET; int W_KIND, R_KIND; uint8_t *W_PTR, *R_PTR, W_PROBE; _Bool G_REWOUND;   /* the object position was set to 0 in this step */
 static CO_ERR wr(int kind, CO_OBJ *obj, CO_NODE *node, uint8_t *b, uint32_t n)
 {
     __CPROVER_assert(obj == &V_OBJ0 && node == &V_NODE && b != 0 && __CPROVER_r_ok(b, n), "object write requires: the open entry, a buffer readable for the length");
+    if (kind == 1) { G_REWOUND = 1; }
+    if (kind == 0) { __CPROVER_assert(G_REWOUND, "the object position is rewound before the typed access of an expedited transfer (a domain or string may be 1..4 bytes long)"); }
     W_N++; W_KIND = kind; W_PTR = b; W_LEN = n; if (G_K < n) { W_PROBE = b[G_K]; }
     return H_WRES;
 }
 static CO_ERR rd(int kind, CO_OBJ *obj, CO_NODE *node, uint8_t *b, uint32_t n)
 {
     __CPROVER_assert(obj == &V_OBJ0 && node == &V_NODE && b != 0 && __CPROVER_w_ok(b, n), "object read requires: the open entry, a buffer writable for the length");
+    if (kind == 1) { G_REWOUND = 1; }
+    if (kind == 0) { __CPROVER_assert(G_REWOUND, "the object position is rewound before the typed access of an expedited transfer (a domain or string may be 1..4 bytes long)"); }
     R_N++; R_KIND = kind; R_PTR = b; R_LEN = n; if (G_K < n) { b[G_K] = H_RBYTE; }
     return H_RRES;
 }
+CO_ERR COObjReset(struct CO_OBJ_T *o, struct CO_NODE_T *n, uint32_t para) { __CPROVER_assert(o == &V_OBJ0 && n == &V_NODE, "COObjReset requires: the open entry"); N_RESET++; if (para == 0) { G_REWOUND = 1; } return CO_ERR_NONE; }
 CO_ERR COObjWrValue(struct CO_OBJ_T *o, struct CO_NODE_T *n, void *v, uint8_t w) { return wr(0, o, n, (uint8_t *)v, w); }
 CO_ERR COObjWrBufStart(struct CO_OBJ_T *o, struct CO_NODE_T *n, uint8_t *b, uint32_t s) { return wr(1, o, n, b, s); }
 CO_ERR COObjWrBufCont(struct CO_OBJ_T *o, struct CO_NODE_T *n, uint8_t *b, uint32_t s) { return wr(2, o, n, b, s); }
@@ -48,7 +53,7 @@ void harness(void)
     __CPROVER_assume(H_FILL <= CO_SDO_BUF_BYTE && G_B < CO_SDO_BUF_BYTE);
     S.Buf.Cur = S.Buf.Start + H_FILL;
     CO_IF_FRM f0 = V_FRM; CO_SDO s0 = S; uint8_t ob = V_SDOBUF[G_B], ok = V_SDOBUF[G_K < CO_SDO_BUF_BYTE ? G_K : 0];
-    W_N = R_N = 0; uint8_t cmd = OFD(0);
+    W_N = R_N = N_RESET = 0; G_REWOUND = 0; uint8_t cmd = OFD(0);
 #if VW_OP == 0
     /* expedited download */
     __CPROVER_assume(H_OPEN && S.Blk.State == BLK_IDLE && (cmd & 0xF2) == 0x22);
@@ -77,7 +82,7 @@ void harness(void)
     uint32_t size = H_OSZ == 0 ? 0 : width == 0 ? H_OSZ : width == H_OSZ ? width : (width < H_OSZ && !strict) ? width : 0;
     if (size == 0) { __CPROVER_assert(W_N == 0 && ABORTED, "size refused: abort, the object is not touched"); __CPROVER_assert(0, "REACH:b"); }
     else {
-        __CPROVER_assert(size > 4 ? (W_N == 1 && W_KIND == 1 && W_LEN == 0) : W_N == 0, "the object's write position is rewound (start access of 0 bytes) for every buffered type; no data is written yet");
+        __CPROVER_assert(G_REWOUND && (W_N == 0 || (W_N == 1 && W_KIND == 1 && W_LEN == 0)), "the object's write position is rewound at EVERY transfer start (start access of 0 bytes, or a position reset for sizes up to 4 bytes); no data is written yet");
         __CPROVER_assert(e == CO_ERR_NONE ? ((size <= 4 || H_WRES == CO_ERR_NONE) && FILL == 0 && S.Buf.Num == 0 && S.Obj == &V_OBJ0) : ABORTED, "accepted only if the rewind succeeded; the transfer buffer is empty");
 #if VW_OP == 1
         __CPROVER_assert(e != CO_ERR_NONE || (FD(0) == 0x60 && S.Seg.Size == size && S.Seg.Num == 0 && S.Seg.TBit == 0), "60h; expected size latched, toggle 0");
